@@ -35,6 +35,18 @@ var zzW *zzWorldT
 
 func zzWorldCleanup() {
 	zzPipedSet = false
+	if zzTreeOldWd != "" {
+		os.Chdir(zzTreeOldWd)
+		zzTreeOldWd = ""
+	}
+	if zzTreeBase != "" {
+		os.RemoveAll(zzTreeBase)
+		zzTreeBase = ""
+	}
+	for _, d := range zzTempDirs {
+		os.RemoveAll(d)
+	}
+	zzTempDirs = nil
 	if zzSavedRand != nil {
 		rand.Reader = zzSavedRand
 	}
